@@ -57,22 +57,6 @@ def instantiate_type(
     # make a deep copy so that there is no overwriting of original template params
     ctype = deepcopy(ctype)
 
-    # Template arguments which are templated themselves
-    # (e.g. `std::vector<std::vector<T>>`), scoped (`std::vector<T::Value>`)
-    # or `This` are instantiated in turn.
-    if isinstance(ctype, parser.TemplatedType):
-        for idx, param in enumerate(ctype.template_params):
-            if isinstance(param, parser.TemplatedType) or \
-                    str(param.typename) == 'This' or \
-                    ('This' not in param.typename.namespaces and
-                     is_scoped_template(template_typenames,
-                                        str(param.typename))[0]):
-                param = instantiate_type(param, template_typenames,
-                                         instantiations, cpp_typename,
-                                         instantiated_class)
-                ctype.template_params[idx] = param
-                ctype.typename.instantiations[idx] = param.typename
-
     # Check if the type has template parameters as template arguments
     if ctype.typename.instantiations:
         for instantiation in ctype.typename.instantiations:
@@ -88,6 +72,22 @@ def instantiate_type(
                     list(replacement.instantiations))
                 instantiation.name = replacement.name
 
+    # Template arguments which are templated themselves
+    # (e.g. `std::vector<std::vector<T>>`), scoped (`std::vector<T::Value>`)
+    # or `This` are instantiated in turn (after the plain parameters, so that a
+    # class name put in for `This` is never taken for a parameter of that name).
+    if isinstance(ctype, parser.TemplatedType):
+        for idx, param in enumerate(ctype.template_params):
+            if isinstance(param, parser.TemplatedType) or \
+                    str(param.typename) == 'This' or \
+                    ('This' not in param.typename.namespaces and
+                     is_scoped_template(template_typenames,
+                                        str(param.typename))[0]):
+                param = instantiate_type(param, template_typenames,
+                                         instantiations, cpp_typename,
+                                         instantiated_class)
+                ctype.template_params[idx] = param
+                ctype.typename.instantiations[idx] = param.typename
 
     str_arg_typename = str(ctype.typename)
 
